@@ -22,19 +22,39 @@
 (*   "keep-single" the per-source routes leave the model holding the last contribution only                 *)
 (* ResultOK holds for "none" and TLC must refute it for each other variant; StaleBlind says why            *)
 (* "stale-size" is invisible when every call uses one grid size.                                           *)
+(*                                                                                                       *)
+(* Round 5 -- how a boolean option is SPELT.  "Both path-length methods": the constructor keyword          *)
+(* new_path_method selects the geometry of the chords, and every route accepts cutoff_grid (clip the        *)
+(* native grid to the requested one, or not).  A boolean option is a truth value; a caller may spell it     *)
+(* True / False, numpy.bool_ (what an HDF5 output or a numpy settings array gives back), 1 / 0, 1.0 / 0.0,  *)
+(* or any other object with a truth value ('new' / '').  Spellings = the ways the option is written;        *)
+(* flag = spelling of new_path_method of the long-lived model, cut = spelling of cutoff_grid of a call.     *)
+(* Every entry records geo = the method whose chords were integrated; a call records the number of native   *)
+(* points it is evaluated on.  Variant                                                                      *)
+(*   "identity"    the option is compared with the singleton (x is True) instead of being tested for truth  *)
+(* is refuted by TLC (RefuteIdentity); IdentityBlind: invisible when options are spelt True / False only.   *)
 EXTENDS Integers, Sequences, FiniteSets, TLC, Json
 CONSTANTS NComp,      \* NComp[c] = number of components of contribution c
           WSize,      \* WSize[w] = number of native wavenumbers the w-th requestable grid clips to
           Depth,      \* length of the exported histories
           Export
-VARIABLES mut, memo, listed, last, hist
-vars == <<mut, memo, listed, last, hist>>
+VARIABLES mut, memo, listed, last, hist, flag
+vars == <<mut, memo, listed, last, hist, flag>>
 
 \* model values for the configs (a .cfg cannot hold tuples)
 MCNComp == <<2, 3, 1, 1>>       \* e.g. two absorbing gases, three scattering gases, one collision pair, one table
 MCWSize == <<5, 2, 3>>          \* the native grid and two sub-ranges of it
 
-Muts == {"none", "stale-size", "accumulate", "keep-single"}
+Muts == {"none", "stale-size", "accumulate", "keep-single", "identity"}
+\* the spellings of a boolean option: <<name, truth value, is it the singleton True / False>>
+Spellings == {<<"True", TRUE, TRUE>>, <<"False", FALSE, TRUE>>, <<"np.True_", TRUE, FALSE>>, <<"np.False_", FALSE, FALSE>>,
+              <<"1", TRUE, FALSE>>, <<"0", FALSE, FALSE>>, <<"1.0", TRUE, FALSE>>, <<"0.0", FALSE, FALSE>>,
+              <<"nonempty", TRUE, FALSE>>, <<"empty", FALSE, FALSE>>}
+Literal(sp) == sp[3]
+\* what the documentation says the option means / what a variant takes it for
+Means(sp) == sp[2]
+Taken(sp) == IF mut = "identity" THEN (sp = <<"True", TRUE, TRUE>>) ELSE sp[2]
+Method(b) == IF b THEN "new" ELSE "old"
 Routes == {"model", "contrib", "full"}
 Contribs == 1..Len(NComp)
 Wins == 1..Len(WSize)
@@ -43,25 +63,37 @@ AllComps(cs) == UNION {{<<c, k>> : k \in Comps(c)} : c \in cs}
 LastOf(cs) == CHOOSE c \in cs : \A d \in cs : d <= c
 
 Init == /\ mut \in Muts
+        /\ flag \in Spellings
+        /\ (mut \in {"none", "identity"} \/ flag = <<"True", TRUE, TRUE>>)    \* the other variants do not read the options
         /\ memo = [c \in Contribs |-> 0]
         /\ listed = Contribs
-        /\ last = [route |-> "none", win |-> 0, prev |-> memo, entries |-> {}]
+        /\ last = [route |-> "none", win |-> 0, pts |-> 0, cut |-> <<"True", TRUE, TRUE>>, prev |-> memo, entries |-> {}]
         /\ hist = <<>>
 
 Entries(route, w) ==
-    CASE route = "model"   -> {[key |-> <<0, 0>>, who |-> AllComps(listed), pts |-> WSize[w]]}
-      [] route = "contrib" -> {[key |-> <<c, 0>>, who |-> AllComps({c}), pts |-> WSize[w]] : c \in listed}
+    CASE route = "model"   -> {[key |-> <<0, 0>>, who |-> AllComps(listed), pts |-> WSize[w], geo |-> Method(Taken(flag))]}
+      [] route = "contrib" -> {[key |-> <<c, 0>>, who |-> AllComps({c}), pts |-> WSize[w], geo |-> Method(Taken(flag))] : c \in listed}
       [] route = "full"    -> {[key |-> ck,
                                 who |-> IF mut = "accumulate" THEN {<<ck[1], i>> : i \in 1..ck[2]} ELSE {ck},
-                                pts |-> IF mut = "stale-size" THEN memo[ck[1]] ELSE WSize[w]] : ck \in AllComps(listed)}
+                                pts |-> IF mut = "stale-size" THEN memo[ck[1]] ELSE WSize[w],
+                                geo |-> Method(Taken(flag))] : ck \in AllComps(listed)}
 
-Call(route, w) ==
-    /\ last' = [route |-> route, win |-> w, prev |-> memo, entries |-> Entries(route, w)]
-    /\ memo' = [c \in Contribs |-> IF c \in listed /\ (route # "full" \/ mut # "stale-size") THEN WSize[w] ELSE memo[c]]
+TrueSp == <<"True", TRUE, TRUE>>
+\* the grid a call is evaluated on: the requested one if cutoff_grid is (taken to be) true, else the native grid (1)
+Eff(w0, cut) == IF Taken(cut) THEN w0 ELSE 1
+Call(route, w0, cut) ==
+    \* unusual spellings are explored on single calls (an option is read afresh by every call and never stored by
+    \* one): cutoff_grid in any spelling on a model whose own flag is spelt True / False; a second call follows only
+    \* when every option so far was spelt True
+    /\ (cut = TrueSp \/ (hist = <<>> /\ mut \in {"none", "identity"} /\ Literal(flag)))
+    /\ (hist = <<>> \/ (flag = TrueSp /\ last.cut = TrueSp))
+    /\ last' = [route |-> route, win |-> w0, pts |-> WSize[Eff(w0, cut)], cut |-> cut, prev |-> memo, entries |-> Entries(route, Eff(w0, cut))]
+    /\ memo' = [c \in Contribs |-> IF c \in listed /\ (route # "full" \/ mut # "stale-size") THEN WSize[Eff(w0, cut)] ELSE memo[c]]
     /\ listed' = IF mut = "keep-single" /\ route # "model" THEN {LastOf(listed)} ELSE listed
-    /\ hist' = Append(hist, [route |-> route, win |-> w, pts |-> WSize[w]])
-    /\ UNCHANGED mut
-Next == \E route \in Routes, w \in Wins : Call(route, w)
+    /\ hist' = Append(hist, [route |-> route, win |-> w0, cut |-> cut[1],
+                             pts |-> WSize[IF Means(cut) THEN w0 ELSE 1]])
+    /\ UNCHANGED <<mut, flag>>
+Next == \E route \in Routes, w \in Wins, cut \in Spellings : Call(route, w, cut)
 Spec == Init /\ [][Next]_vars
 Bound == Len(hist) <= Depth
 
@@ -77,13 +109,24 @@ ExpectedWho(key) == IF key = <<0, 0>> THEN AllComps(Contribs)
 \* and the call returns one entry for everything the model was given
 ResultOK == last.route # "none" =>
     /\ {e.key : e \in last.entries} = ExpectedKeys(last.route)
-    /\ \A e \in last.entries : e.who = ExpectedWho(e.key) /\ e.pts = WSize[last.win]
+    /\ \A e \in last.entries : /\ e.who = ExpectedWho(e.key)
+                                /\ e.pts = WSize[IF Means(last.cut) THEN last.win ELSE 1]
+                                /\ e.geo = Method(Means(flag))       \* the chords of the method ASKED for
+    /\ last.pts = WSize[IF Means(last.cut) THEN last.win ELSE 1]
 Sound             == (mut = "none") => ResultOK
 RefuteStaleSize   == (mut = "stale-size") => ResultOK
 RefuteAccumulate  == (mut = "accumulate") => ResultOK
 RefuteKeepSingle  == (mut = "keep-single") => ResultOK
+RefuteIdentity    == (mut = "identity") => ResultOK
+\* a check that spells every option True / False cannot see "identity"
+IdentityBlind == (mut = "identity" /\ Literal(flag) /\ Literal(last.cut)) => ResultOK
 \* a check that always uses one grid size after a whole preparation cannot see "stale-size"
-StaleBlind == (mut = "stale-size" /\ last.route = "full" /\ \A c \in Contribs : last.prev[c] = WSize[last.win]) => ResultOK
+StaleBlind == (mut = "stale-size" /\ last.route = "full" /\ \A c \in Contribs : last.prev[c] = last.pts) => ResultOK
 
-Emit == (Export /\ mut = "none" /\ Len(hist) = Depth) => PrintT(<<"ROUTES", ToJson([walk |-> hist])>>)
+\* exported: (ROUTES) every history of Depth calls with the options spelt True (the driver draws the method per
+\* scenario); (FLAGS) every single call with new_path_method or cutoff_grid in every spelling
+Emit == /\ (Export /\ mut = "none" /\ Len(hist) = Depth /\ flag = TrueSp /\ \A i \in 1..Len(hist) : hist[i].cut = "True")
+            => PrintT(<<"ROUTES", ToJson([walk |-> hist])>>)
+        /\ (Export /\ mut = "none" /\ Len(hist) = 1)
+            => PrintT(<<"FLAGS", ToJson([flag |-> flag[1], new |-> Means(flag), walk |-> hist])>>)
 =============================================================================
